@@ -74,6 +74,7 @@ extern "C" void vf_block_until(uint32_t* nonzero);
 static constexpr int32_t kSpinnerWakeThreshold = 2;  // thread_pool.h:447
 static constexpr int kWorkBatchSize = 8;              // thread_pool.h:442
 static constexpr int kNumSteal = (VF_N + VF_SS - 1) / VF_SS;
+#define VF_NUMSTEAL_GT1 ((VF_N + VF_SS - 1) / VF_SS > 1)
 
 namespace dd = dispenso::detail;
 
@@ -130,12 +131,34 @@ static uint32_t g_inflight;                // a submission call is in progress
 static uint32_t g_entered;                 // workers that did their first enterSleep
 static uint32_t g_all_entered;             // word: every worker is between its enterSleep and exitSleep for the first time
 static bool g_prefer0[VF_N];               // initial preferRing hint per worker (symbolic; sticky state of the real loop)
+// start point of worker i: false = top of the loop (spinning, nothing found yet); true = the worker has
+// found nothing, reached the spin limit and executed markIdle + enterSleep (performed on its behalf by
+// k_build with the REAL enterSleep): its first own step is the running() re-check before waitOnThread
+static bool g_start_parking[VF_N];
+static uint32_t g_epoch0[VF_N];
 static uint32_t g_exited;                  // workers that left their loop
 
-static inline void k_task_started() {
+static inline void k_teardown();
+// scenario end: the step that makes "all submitted tasks started" true performs the harness teardown
+// (think of the last task telling its owner to shut the pool down)
+static inline void k_task_started(bool& last) {   // `last`: the caller performs the teardown (one copy of its code)
+  // (branch-free: CBMC's native-thread engine wants no control flow inside an atomic section)
   VfAtomic a;
   g_started++;
-  if (g_submit_done && g_started == g_submitted) g_all_started = 1;
+  uint32_t l = (uint32_t)(g_submit_done != 0) & (uint32_t)(g_started == g_submitted);
+  g_all_started |= l;
+  last = last | (l != 0);
+}
+static inline void k_submission_done() {
+  bool last;
+  {
+    VfAtomic a;
+    g_inflight = 0;
+    g_submit_done = 1;
+    last = g_started == g_submitted;
+    g_all_started |= (uint32_t)last;
+  }
+  if (last) k_teardown();
 }
 
 // one atomic container step
@@ -144,7 +167,7 @@ static inline void k_task_started() {
 static inline bool k_pop_central() {
 #if VF_LIVE_CENTRAL
   bool got;
-  K_STEP(got = g_central > 0; if (got) g_central--);
+  K_STEP(got = g_central > 0; g_central -= (uint32_t)got);
   return got;
 #else
   return false;
@@ -153,7 +176,7 @@ static inline bool k_pop_central() {
 static inline bool k_pop_steal(int s) {
 #if VF_LIVE_STEAL
   bool got;
-  K_STEP(got = g_steal[s] > 0; if (got) g_steal[s]--);
+  K_STEP(got = g_steal[s] > 0; g_steal[s] -= (uint32_t)got);
   return got;
 #else
   (void)s;
@@ -163,7 +186,7 @@ static inline bool k_pop_steal(int s) {
 static inline bool k_ring_pop(int i, int32_t& target) {
 #if VF_LIVE_RING
   bool got;
-  K_STEP(got = g_ring[i] > 0; if (got) { g_ring[i]--; target = g_ring_target[i]; g_ring_target[i] = -1; });
+  K_STEP(got = g_ring[i] > 0; g_ring[i] -= (uint32_t)got; target = g_ring_target[i]; g_ring_target[i] = -1);  // (target is -1 when the ring is empty)
   return got;
 #else
   (void)i; (void)target;
@@ -210,11 +233,11 @@ static inline void k_enqueue_central(uint32_t n) {  // enqueueToCentralQueue / e
 }
 
 // task(): ring tasks staged by the cascade path are wrapped: cascadeWake(target) runs before the user work
-static inline void k_run(int32_t cascadeTarget) {
+static inline void k_run(int32_t cascadeTarget, bool& last) {
   if (cascadeTarget >= 0) {
     WS->cascadeWake(cascadeTarget);   // REAL
   }
-  k_task_started();
+  k_task_started(last);
 }
 
 // ------------------------------------------------------------------------------- worker glue
@@ -243,56 +266,54 @@ static inline void k_markIdle(bool& isWorking) {
   }
 }
 
-// tryFindAndExecuteWork (thread_pool.h:752)
-static inline bool k_tryFind(int myRing, int myStealIdx, bool& preferRing, int failCount, bool checkQueue) {
+// tryFindAndExecuteWork (thread_pool.h:752).  The two branches of the original
+//   preferRing:  ring, central (hint-gated), own steal ring, cross steal rings
+//   otherwise:   central (hint-gated), ring
+// share the central-queue block here (same order of probes in either case; one copy of the code).
+static inline bool k_tryFind(int myRing, int myStealIdx, bool& preferRing, int failCount, bool checkQueue, bool& last) {
   int32_t tgt = -1;
-  if (preferRing) {
-    if (k_ring_pop(myRing, tgt)) {
-      k_run(tgt);
+  if (preferRing && k_ring_pop(myRing, tgt)) {
+    k_run(tgt, last);
+    return true;
+  }
+  if (checkQueue && k_hint_load()) {
+    if (k_pop_central()) {
+      preferRing = false;
+      k_run(-1, last);
       return true;
     }
-    if (checkQueue && k_hint_load()) {
-      if (k_pop_central()) {
-        preferRing = false;
-        k_run(-1);
-        return true;
-      }
-      k_hint_store(false);
-    }
-    if (!k_steal_empty(myStealIdx) && k_pop_steal(myStealIdx)) {
-      k_run(-1);
-      return true;
-    }
-#if VF_LIVE_STEAL   // stealRingsWithWork_ stays 0 when no steal ring is ever filled
-    if (failCount >= K_CROSS) {
-      uint64_t mask = k_stealRingsWithWork.load(std::memory_order_acquire);
-      if (mask != 0) {
-        mask &= ~(uint64_t{1} << myStealIdx);
-        if (mask != 0) {
-          int target = dd::countTrailingZeros(mask);
-          if (target < kNumSteal && k_pop_steal(target)) {
-            k_run(-1);
-            return true;
-          }
-          k_stealRingsWithWork.fetch_and(~(uint64_t{1} << target), std::memory_order_relaxed);
-        }
-      }
-    }
-#endif
-  } else {
-    if (checkQueue && k_hint_load()) {
-      if (k_pop_central()) {
-        k_run(-1);
-        return true;
-      }
-      k_hint_store(false);
-    }
+    k_hint_store(false);
+  }
+  if (!preferRing) {
     if (k_ring_pop(myRing, tgt)) {
       preferRing = true;
-      k_run(tgt);
+      k_run(tgt, last);
       return true;
     }
+    return false;
   }
+  if (!k_steal_empty(myStealIdx) && k_pop_steal(myStealIdx)) {
+    k_run(-1, last);
+    return true;
+  }
+#if VF_LIVE_STEAL && VF_NUMSTEAL_GT1   // with a single steal ring the masked bitmask is always 0
+  if (failCount >= K_CROSS) {
+    uint64_t mask = k_stealRingsWithWork.load(std::memory_order_acquire);
+    if (mask != 0) {
+      mask &= ~(uint64_t{1} << myStealIdx);
+      if (mask != 0) {
+        int target = dd::countTrailingZeros(mask);
+        if (target < kNumSteal && k_pop_steal(target)) {
+          k_run(-1, last);
+          return true;
+        }
+        k_stealRingsWithWork.fetch_and(~(uint64_t{1} << target), std::memory_order_relaxed);
+      }
+    }
+  }
+#else
+  (void)failCount;
+#endif
   return false;
 }
 
@@ -304,28 +325,30 @@ static inline void k_worker_loop(int32_t ringIndex) {
   const bool kUseWakeSleep = VF_WAKEMODE != 0;
   bool preferRing = g_prefer0[ringIndex];
   auto* ws = WS;
-  uint32_t epoch = ws->waiterFor(ringIndex).current();  // REAL
+  // a worker that starts at the park point read its epoch before its last (fruitless) probes, i.e.
+  // before anything the scenario's producer does: k_build read it with the REAL current()
+  uint32_t epoch = g_start_parking[ringIndex] ? g_epoch0[ringIndex] : ws->waiterFor(ringIndex).current();  // REAL
   int myStealIdx = ringIndex / VF_SS;
   int failCount = 0;
   bool isWorking = false;
-  bool first = true;
   bool inner = false;
+  bool last = false;
   int localWorkDone = 0;
   bool checkQueue = true;
 
+  bool resumeAtPark = g_start_parking[ringIndex];
   for (;;) {
+   if (!resumeAtPark) {
     if (!inner) {
       if (!k_running(ringIndex)) break;                  // while (data.running()) {
       localWorkDone = 0;
       checkQueue = (failCount < K_SPIN_CHECK) || (((failCount + ringIndex) & (K_QUEUE_CHECK - 1)) == 0);
       inner = true;
     }
-    if (k_tryFind(ringIndex, myStealIdx, preferRing, failCount, checkQueue)) {   // while (tryFind..) {
+    if (k_tryFind(ringIndex, myStealIdx, preferRing, failCount, checkQueue, last)) {   // while (tryFind..) {
+      if (last) { last = false; k_teardown(); }
       ++localWorkDone;
-      if (localWorkDone >= kWorkBatchSize) {
-        k_workRemaining.add(-localWorkDone);
-        localWorkDone = 0;
-      }
+      // (flush of a full batch, localWorkDone >= kWorkBatchSize = 8: unreachable with <= 3 tasks)
       failCount = 0;
       checkQueue = true;
       continue;                                                                  // }
@@ -347,7 +370,8 @@ static inline void k_worker_loop(int32_t ringIndex) {
     // Steal ring check (deferred from lean phase).
     if (k_pop_steal(myStealIdx)) {
       k_markWorkDone(isWorking);
-      k_run(-1);  // executeNext
+      k_run(-1, last);  // executeNext
+      if (last) { last = false; k_teardown(); }
       k_workRemaining.add(-1);
       failCount = 0;
       continue;
@@ -355,8 +379,10 @@ static inline void k_worker_loop(int32_t ringIndex) {
 
     ++failCount;
     // cpuRelax()
+   }
 
-    if (failCount >= K_SPIN_LIMIT) {
+    if (resumeAtPark || failCount >= K_SPIN_LIMIT) {
+     if (!resumeAtPark) {
       k_markIdle(isWorking);
 #if VF_SPINWINDOW
       // timing assumption (only where the spec says so): the spin phase outlasts a submission call
@@ -365,11 +391,10 @@ static inline void k_worker_loop(int32_t ringIndex) {
 #endif
       if (kUseWakeSleep) {
         ws->enterSleep(ringIndex);  // REAL
-        if (first) {
-          VfAtomic a;
-          first = false;
-          if (++g_entered == VF_N) g_all_entered = 1;
-        }
+      }
+     }
+     resumeAtPark = false;
+      if (kUseWakeSleep) {
         if (!k_running(ringIndex)) {
           ws->exitSleep(ringIndex);  // REAL
           break;
@@ -549,6 +574,12 @@ VF_NOINLINE static void k_build() {
     g_ring_target[i] = -1;
   }
   k_numNotWorking.set(VF_N);
+  for (int i = 0; i < VF_N; ++i) {
+    g_epoch0[i] = WS->waiterFor(i).current();  // REAL
+    if (g_start_parking[i] && VF_WAKEMODE) {
+      WS->enterSleep(i);  // REAL (on behalf of worker i, see g_start_parking)
+    }
+  }
   k_numThreads = VF_N;
   k_enableEpochWaiter = VF_WAKEMODE != 0;
   k_sleepLengthUs = VF_SLEEPLEN;
